@@ -17,7 +17,7 @@ RULE = (
     "the sweep, finer subdivisions against coarser ones, untouched segments bit for bit. Non-trivial = non-zero extent."
 )
 BUDGET = {"quick": 4000, "thorough": 300000}
-TIME_CAP = {"quick": 70, "thorough": 1500}
+TIME_CAP = {"quick": 240, "thorough": 1500}
 ANCHORS = ["Arc.as_cubic_curves", "Arc.as_quad_curves", "Path.approximate_arcs_with_cubics", "Path.approximate_arcs_with_quads", "Path.__setitem__"]
 REQUIRED_MONITORS = ["chain-endpoints", "chain-joins", "ellipse-residual", "winding", "refinement", "rest-untouched", "path-links"]
 
